@@ -1758,7 +1758,10 @@ impl Tree {
     /// assert!(tree.is_binary().unwrap());
     /// ```
     pub fn resolve(&mut self) -> Result<(), TreeError> {
+        #[cfg(not(phylotree_verif))]
         let rng = &mut rand::thread_rng();
+        #[cfg(phylotree_verif)]
+        let rng = &mut crate::verif_hooks::rng();
         let mut to_binarize = vec![];
         for node in self.nodes.iter() {
             if node.children.len() > 2 {
